@@ -38,6 +38,8 @@
 #undef private
 #undef protected
 #include "hexutil.hpp"
+#include "pki.hpp"
+#include <openssl/ssl.h>
 
 using namespace iora::network;
 using verif::hex;
@@ -524,11 +526,199 @@ static std::string stressCase(int threads, int perThread, std::size_t maxBody)
   return "S " + verdict + (wasClosed ? " closed" : "");
 }
 
+
+// the same over TLS, both roles: real OpenSSL peer (non-blocking, one loop), real kernel back-pressure turning into
+// SSL WANT_WRITE / WANT_READ inside the engine; the senders start BEFORE the handshake has completed, so the first
+// frames go through the "queue, do not write raw bytes" branch.  The peer also streams bytes to the engine.
+//   L <c|s> <threads> <perThread> <maxBody>
+static verif::MiniPki g_pki;
+static std::string tlsStress(char role, int threads, int perThread, std::size_t maxBody)
+{
+  TransportConfig cfg;
+  cfg.protocol = Protocol::TCP;
+  cfg.maxWriteQueue = 1000000;
+  cfg.idleTimeout = std::chrono::seconds(3600);
+  if (role == 'c')
+  {
+    cfg.clientTls.enabled = true;
+    cfg.clientTls.defaultMode = TlsMode::Client;
+    cfg.clientTls.verifyPeer = true;
+    cfg.clientTls.caFile = g_pki.c("ca");
+  }
+  else
+  {
+    cfg.serverTls.enabled = true;
+    cfg.serverTls.defaultMode = TlsMode::Server;
+    cfg.serverTls.certFile = g_pki.c("server");
+    cfg.serverTls.keyFile = g_pki.k("server");
+  }
+  TcpEngine tx{cfg};
+  std::mutex m;
+  std::condition_variable cv;
+  bool closed = false;
+  SessionId acceptedSid = 0;
+  std::string inbound;
+  detail::EngineBase::Callbacks cbs{};
+  cbs.onConnect = [&](SessionId, const TransportAddress &) {};
+  cbs.onClose = [&](SessionId, const TransportErrorInfo &) { std::lock_guard<std::mutex> g(m); closed = true; cv.notify_all(); };
+  cbs.onData = [&](SessionId, iora::core::BufferView bv, std::chrono::steady_clock::time_point)
+  {
+    std::lock_guard<std::mutex> g(m);
+    inbound.append(reinterpret_cast<const char *>(bv.data()), bv.size());
+  };
+  cbs.onAccept = [&](SessionId sid, const TransportAddress &) { std::lock_guard<std::mutex> g(m); acceptedSid = sid; cv.notify_all(); };
+  cbs.onError = [&](TransportError, const std::string &) {};
+  tx.setCallbacks(std::move(cbs));
+  if (!tx.start().isOk()) return "STARTFAIL";
+
+  auto body = [](int t, int q, std::size_t len) {
+    std::string b(len, '\0');
+    for (std::size_t i = 0; i < len; ++i) b[i] = static_cast<char>((t * 131 + q * 31 + i * 7) & 0xFF);
+    return b;
+  };
+  auto lenOf = [&](int t, int q) { return static_cast<std::size_t>(1 + ((t * 7919u + q * 104729u) % maxBody)); };
+  std::size_t expectTotal = 0;
+  for (int t = 0; t < threads; ++t) for (int q = 0; q < perThread; ++q) expectTotal += 12 + lenOf(t, q);
+  // what the peer streams to the engine
+  std::string outbound(200000, '\0');
+  for (std::size_t i = 0; i < outbound.size(); ++i) outbound[i] = static_cast<char>((i * 13 + (i >> 9)) & 0xFF);
+
+  int fd = -1, hl = -1;
+  SessionId sid = 0;
+  SSL_CTX *ctx = nullptr;
+  if (role == 'c')
+  {
+    std::uint16_t hport = 0;
+    hl = listenSocket(hport);
+    auto r = tx.connect("localhost", hport, TlsMode::Client);
+    if (!r.isOk()) { tx.stop(); return "CONNECTFAIL"; }
+    sid = r.value();
+    fd = acceptOne(hl);
+    ctx = SSL_CTX_new(TLS_server_method());
+    SSL_CTX_use_certificate_file(ctx, g_pki.c("server").c_str(), SSL_FILETYPE_PEM);
+    SSL_CTX_use_PrivateKey_file(ctx, g_pki.k("server").c_str(), SSL_FILETYPE_PEM);
+  }
+  else
+  {
+    auto lr = tx.addListener("127.0.0.1", 0, TlsMode::Server);
+    if (!lr.isOk()) { tx.stop(); return "LISTENFAIL"; }
+    std::uint16_t lport = 0;
+    {
+      auto it = tx._listeners.find(lr.value());
+      sockaddr_in sa{};
+      socklen_t l = sizeof(sa);
+      ::getsockname(it->second->fd, reinterpret_cast<sockaddr *>(&sa), &l);
+      lport = ntohs(sa.sin_port);
+    }
+    fd = ::socket(AF_INET, SOCK_STREAM, 0);
+    sockaddr_in a{};
+    a.sin_family = AF_INET;
+    a.sin_addr.s_addr = htonl(INADDR_LOOPBACK);
+    a.sin_port = htons(lport);
+    if (::connect(fd, reinterpret_cast<sockaddr *>(&a), sizeof(a)) != 0) { tx.stop(); return "CONNECTFAIL"; }
+    int fl = ::fcntl(fd, F_GETFL, 0);
+    ::fcntl(fd, F_SETFL, fl | O_NONBLOCK);
+    std::unique_lock<std::mutex> lk(m);
+    if (!cv.wait_for(lk, std::chrono::seconds(3), [&] { return acceptedSid != 0; })) { lk.unlock(); tx.stop(); return "ACCEPTFAIL"; }
+    sid = acceptedSid;
+    ctx = SSL_CTX_new(TLS_client_method());
+  }
+  if (fd < 0) { tx.stop(); return "CONNECTFAIL"; }
+  // senders start now: the handshake has not even begun on the peer side
+  std::vector<std::thread> th;
+  for (int t = 0; t < threads; ++t)
+    th.emplace_back([&, t]
+    {
+      for (int q = 0; q < perThread; ++q)
+      {
+        std::size_t len = lenOf(t, q);
+        std::string f(12, '\0');
+        std::uint32_t tt = t, qq = q, ll = static_cast<std::uint32_t>(len);
+        std::memcpy(&f[0], &tt, 4); std::memcpy(&f[4], &qq, 4); std::memcpy(&f[8], &ll, 4);
+        f += body(t, q, len);
+        tx.send(sid, f.data(), f.size());
+      }
+    });
+  std::this_thread::sleep_for(std::chrono::milliseconds(5));
+  SSL *ssl = SSL_new(ctx);
+  SSL_set_fd(ssl, fd);
+  if (role == 'c') SSL_set_accept_state(ssl); else SSL_set_connect_state(ssl);
+  std::string stream;
+  std::size_t outOff = 0;
+  bool peerFailed = false;
+  int rounds = 0;
+  auto deadline = std::chrono::steady_clock::now() + std::chrono::seconds(30);
+  while ((stream.size() < expectTotal || outOff < outbound.size()) && std::chrono::steady_clock::now() < deadline)
+  {
+    bool progress = false;
+    char buf[16384];
+    int n = SSL_read(ssl, buf, rounds < 300 ? 700 : static_cast<int>(sizeof(buf)));
+    if (n > 0) { stream.append(buf, static_cast<std::size_t>(n)); progress = true; }
+    else
+    {
+      int e = SSL_get_error(ssl, n);
+      if (e != SSL_ERROR_WANT_READ && e != SSL_ERROR_WANT_WRITE) { peerFailed = true; break; }
+    }
+    if (SSL_is_init_finished(ssl) && outOff < outbound.size())
+    {
+      int want = static_cast<int>(std::min<std::size_t>(outbound.size() - outOff, 1 + (rounds * 37) % 9000));
+      int w = SSL_write(ssl, outbound.data() + outOff, want);
+      if (w > 0) { outOff += static_cast<std::size_t>(w); progress = true; }
+      else
+      {
+        int e = SSL_get_error(ssl, w);
+        if (e != SSL_ERROR_WANT_READ && e != SSL_ERROR_WANT_WRITE) { peerFailed = true; break; }
+      }
+    }
+    ++rounds;
+    if (!progress) { pollfd pf{fd, POLLIN, 0}; ::poll(&pf, 1, 5); }
+    else if (rounds < 300) std::this_thread::sleep_for(std::chrono::microseconds(300));
+  }
+  for (auto &t : th) t.join();
+  // the engine's view of the peer's stream
+  for (int i = 0; i < 400; ++i)
+  {
+    { std::lock_guard<std::mutex> g(m); if (inbound.size() >= outbound.size()) break; }
+    std::this_thread::sleep_for(std::chrono::milliseconds(5));
+  }
+  std::string verdict = "ok";
+  if (peerFailed) verdict = "tls-failure-on-peer";
+  std::vector<int> next(threads, 0);
+  std::size_t off = 0;
+  long frames = 0;
+  while (verdict == "ok" && off + 12 <= stream.size())
+  {
+    std::uint32_t tt, qq, ll;
+    std::memcpy(&tt, &stream[off], 4); std::memcpy(&qq, &stream[off + 4], 4); std::memcpy(&ll, &stream[off + 8], 4);
+    if (tt >= static_cast<std::uint32_t>(threads) || ll != lenOf(tt, qq)) { verdict = "corrupt-frame-header"; break; }
+    if (off + 12 + ll > stream.size()) { verdict = "truncated"; break; }
+    if (static_cast<int>(qq) != next[tt]) { verdict = "lost-or-reordered"; break; }
+    if (stream.compare(off + 12, ll, body(tt, qq, ll)) != 0) { verdict = "corrupt-body"; break; }
+    next[tt]++;
+    frames++;
+    off += 12 + ll;
+  }
+  if (verdict == "ok" && (stream.size() != expectTotal || frames != static_cast<long>(threads) * perThread)) verdict = "incomplete";
+  {
+    std::lock_guard<std::mutex> g(m);
+    if (verdict == "ok" && inbound != outbound) verdict = inbound.size() == outbound.size() ? "inbound-corrupt" : "inbound-incomplete";
+  }
+  bool wasClosed;
+  { std::lock_guard<std::mutex> g(m); wasClosed = closed; }
+  SSL_free(ssl);
+  SSL_CTX_free(ctx);
+  tx.stop();
+  ::close(fd);
+  if (hl >= 0) ::close(hl);
+  return "L " + verdict + (wasClosed ? " closed" : "");
+}
+
 int main(int argc, char **argv)
 {
   if (argc < 3) return 2;
   iora::core::Logger::setLevel(iora::core::Logger::Level::Fatal);
   ::signal(SIGPIPE, SIG_IGN); // the harness writes to peers the engine may have closed
+  g_pki.build(std::string(argv[2]) + ".pki");
   std::ifstream in(argv[1]);
   std::ofstream out(argv[2]);
   std::string line;
@@ -541,6 +731,7 @@ int main(int argc, char **argv)
     {
       if (p[0] == "T" && p.size() >= 3) r = runCase(p[1], split(p[2], ';'));
       else if (p[0] == "S" && p.size() >= 4) r = stressCase(std::stoi(p[1]), std::stoi(p[2]), std::stoul(p[3]));
+      else if (p[0] == "L" && p.size() >= 5) r = tlsStress(p[1][0], std::stoi(p[2]), std::stoi(p[3]), std::stoul(p[4]));
       else r = "BADCASE";
     }
     catch (const std::exception &e)
